@@ -44,7 +44,7 @@ def r20_1(ctx, rep, roles, adm, app):
     seen = set()
     for row in app.ret_rows:
         n += 1
-        called = [e for e in row.calls() if e[1] == reset]
+        called = roles.reset_events(row, models.RECV)
         st = models.variant_of(row.ret)
         seen.add(st)
         rep.obligation((len(called) == 1) == (st == "ApplyAfterReset") and len(called) <= 1, "C20/R20.1/reset-iff-status",
@@ -52,7 +52,7 @@ def r20_1(ctx, rep, roles, adm, app):
                        sample="%s <=> %d reset_node call" % (st, len(called)))
     # the same for paths that are still inside the key-value loop (reset precedes the loop)
     for row in app.backedge_rows + app.panic_rows:
-        called = [e for e in row.calls() if e[1] == reset]
+        called = roles.reset_events(row, models.RECV)
         adm_st = None
         for e in row.calls():
             pass
